@@ -29,6 +29,9 @@ def Rem.close (r : Rem) : Rem :=
     { r with csOpen := false, c := { r.c with connected := if r.c.kind.tls then false else r.c.connected } }
   else r
 
+/-- the shared WireLog was (re)opened: this remoter's part of the log starts empty and it records from now on -/
+def Rem.relog (r : Rem) (attached : Bool) : Rem := { r with c := { r.c with wl := attached, wireTx := [], wireRx := [] } }
+
 /-- `Remoter.serviceReceives`; with `cs is None` the first `self.cs.recv` is an AttributeError -/
 def Rem.serviceReceives (r : Rem) : Rem × Option Exn :=
   if r.c.cutoff then (r, none)
@@ -89,6 +92,10 @@ structure Server where
   ixes : Table := []
   cxes : Table := []
   gone : List Rem := []
+  /-- a WireLog object is attached to the server (handed to every remoter it makes) -/
+  wlAttached : Bool := false
+  /-- that WireLog is currently open (a plain `WireLog()` starts closed; `reopen()` opens it with FRESH, empty logs) -/
+  wlOpen : Bool := false
 deriving Repr
 
 /-- `d[ca] = r` on an insertion-ordered dict; also returns the value that was replaced -/
@@ -111,16 +118,17 @@ def retire (g : List Rem) : Option Rem → List Rem
   | none => g
   | some o => o.close :: g
 
-def newRem (tls : Bool) (sid : Nat) (p : Pending) : Rem :=
+def newRem (tls : Bool) (sid : Nat) (p : Pending) (wl : Bool := false) : Rem :=
   { sid := sid, hs := p.hs,
-    c := { kind := if tls then .remoterTls else .remoter, connected := !tls, sends := p.sends, recvs := p.recvs } }
+    c := { kind := if tls then .remoterTls else .remoter, connected := !tls, sends := p.sends, recvs := p.recvs, wl := wl } }
 
 /-- `serviceAxes`: accept everything pending, make a remoter for each, file it under its `ca`
 (plain: in `ixes`; TLS: in `cxes`), closing a remoter it replaces -/
 def acceptAll (s : Server) : List Pending → Server
   | [] => { s with pending := [] }
   | p :: ps =>
-    let r := newRem s.tls s.nextSid p
+    -- the remoter keeps a reference to the server's WireLog object; whether it records depends on the log being open
+    let r := newRem s.tls s.nextSid p (s.wlAttached && s.wlOpen)
     if p.dead then
       -- `except OSError: cs.close(); continue`: no remoter is made, the socket is closed
       acceptAll { s with nextSid := s.nextSid + 1,
@@ -204,14 +212,30 @@ def Server.close (s : Server) : Server :=
            ixes := s.ixes.map fun (ca, r) => (ca, r.close),
            cxes := [], gone := s.cxes.map (fun (_, r) => r.close) ++ s.gone }
 
+/-- the `close()` at the start of `reopen()` -/
+def Server.reclose (s : Server) : Server :=
+  let s1 := s.close
+  -- whether the remoters of the previous opening (closed by `close`) are forgotten is read from the code
+  if Gen.Tcp.reopenClearsIxes then { s1 with ixes := [], gone := s1.ixes.map (·.2) ++ s1.gone } else s1
+
 /-- `reopen` = `close` then `open` (a fresh listen socket) -/
 def Server.reopen (s : Server) : Server :=
-  let s1 := s.close
-  { s1 with curListen := some s1.nextSid, nextSid := s1.nextSid + 1 }
+  let s2 := s.reclose
+  { s2 with curListen := some s2.nextSid, nextSid := s2.nextSid + 1 }
+
+/-- `reopen()` whose `open()` fails: the fresh listen socket is created, `bind()`/`listen()` raises OSError (address in use,
+no permission …), `open()` closes that socket again and returns False — the server is left closed -/
+def Server.reopenFail (s : Server) : Server :=
+  let s2 := s.reclose
+  { s2 with curListen := none, deadListens := s2.nextSid :: s2.deadListens, nextSid := s2.nextSid + 1 }
 
 inductive SOp where
   | conn (p : Pending) | svc | tx (ca : Nat) (d : Bytes) | rm (ca : Nat) | close | reopen
   | rxix (ca : Nat) | closeix (ca : Nat) | closeall
+  /-- `reopen()` with the bind/listen of the new listen socket failing -/
+  | reopenf
+  /-- `wl.reopen()` on the server's WireLog: from now on every remoter (old and new) records, into fresh logs -/
+  | wlopen
 deriving Repr
 
 inductive Status where
@@ -247,12 +271,16 @@ def Server.step (s : Server) : SOp → Server × Status
     | none => (s, .raised .other)
     | some _ => ({ s with ixes := mapKey s.ixes ca Rem.close }, .ok)
   | .closeall => ({ s with ixes := s.ixes.map fun (ca, r) => (ca, r.close) }, .ok)
+  | .wlopen =>
+    ({ s with wlOpen := true, ixes := s.ixes.map fun (ca, r) => (ca, r.relog s.wlAttached),
+              cxes := s.cxes.map fun (ca, r) => (ca, r.relog s.wlAttached), gone := s.gone.map fun r => r.relog s.wlAttached }, .ok)
   | .rm ca =>
     match dictGet s.ixes ca with
     | none => (s, .raised .other)
     | some r => ({ s with ixes := dictDel s.ixes ca, gone := r.close :: s.gone }, .ok)
   | .close => (s.close, .ok)
   | .reopen => (s.reopen, .ok)
+  | .reopenf => (s.reopenFail, .ok)
 
 def Server.run (s : Server) : List SOp → Server
   | [] => s
@@ -260,6 +288,9 @@ def Server.run (s : Server) : List SOp → Server
 
 /-- a constructed server after its first `reopen()` -/
 def Server.start (tls : Bool) : Server := Server.reopen { tls := tls }
+
+/-- the same with a WireLog attached, open or still closed -/
+def Server.startW (tls isOpen : Bool) : Server := Server.reopen { tls := tls, wlAttached := true, wlOpen := isOpen }
 
 /-- ids of all sockets the server ever obtained that are still open -/
 def Server.openSocks (s : Server) : List Nat :=
